@@ -417,3 +417,354 @@ Proof.
     pose proof (units8_eq_of_grid_eq tpb q k t x E Htpb Hq Hdiv NT Ht Hx HE). lia.
   - pose proof (units8_lt_of_grid_lt U (k * tau) a t x E U0 HU2 H Ht' Hx HE2). lia.
 Qed.
+
+(* The no-tie hypothesis cannot be dropped: with tpb = 512 the grid point 1/512 = 0.001953125 is an exact decimal tie
+   (195312.5 units).  t = 1/512 (the double is exact) and x = 1/512 + 2^-60 satisfy every other hypothesis of
+   due_float_exact (U = 512, tau = q = k = a = 1, E = 2^-60), the exact test says "due" (a <= k tau) and the float
+   test says "not due".  The real code does this: docs/FLOAT.md (tpb = 512, durations 0.2, 1/512, 0.1: event 15 is
+   played on tick 774 instead of 773; tpb = 2560, one-tick durations: events are lost). *)
+Lemma tie_sharp_512 :
+  let t := 1 / 512 in let x := 1 / 512 + / 1152921504606846976 in let E := / 1152921504606846976 in
+  Rabs (t - IZR 1 / IZR 512) <= E /\ Rabs (x - IZR 1 / IZR 512) <= E /\ 2 * 10 ^ 8 * IZR 1 * E < 1 /\
+  (512 | 2 * 10 ^ 8 * 1)%Z /\ (1 <= 1 * 1)%Z /\
+  units8 t = 195312%Z /\ units8 x = 195313%Z /\ ~ (py_round8 x <= py_round8 t).
+Proof.
+  intros t x E.
+  assert (Ut : units8 t = 195312%Z).
+  { unfold units8, t. replace (1 / 512 * 10 ^ 8) with (390625 / 2) by (rewrite e8_val; lra).
+    unfold Znearest.
+    assert (F : Zfloor (390625 / 2) = 195312%Z).
+    { apply Zfloor_imp. rewrite plus_IZR. lra. }
+    rewrite F. rewrite Rcompare_Eq by lra. reflexivity. }
+  assert (Ux : units8 x = 195313%Z).
+  { unfold units8, x. rewrite e8_val. apply Znearest_imp. apply Rabs_def1; lra. }
+  repeat split.
+  - unfold t, E. replace (1 / 512 - 1 / 512) with 0 by lra. rewrite Rabs_R0. lra.
+  - unfold x, E. replace (1 / 512 + / 1152921504606846976 - 1 / 512) with (/ 1152921504606846976) by lra.
+    rewrite Rabs_pos_eq; lra.
+  - unfold E. rewrite e8_val. lra.
+  - exists 390625%Z. reflexivity.
+  - lia.
+  - exact Ut.
+  - exact Ux.
+  - intros H. apply (units8_compare t x) in H; rewrite ?Ut, ?Ux in *; lia.
+Qed.
+
+(** * 4. The project's corollaries: the loop of Track.tick *)
+
+(* round(self.current_time, 8) >= round(self.next_event_time, 8) *)
+Definition float_due (t x : R) : bool := Rle_bool (py_round8 x) (py_round8 t).
+(* Sched/Model.v:  t_next tr <=? t_cur tr  (integer units) *)
+Definition exact_due (cur a : Z) : bool := (a <=? cur)%Z.
+
+Definition sumZ (l : list Z) : Z := fold_right Z.add 0%Z l.
+Lemma sumZ_app l1 l2 : sumZ (l1 ++ l2) = (sumZ l1 + sumZ l2)%Z.
+Proof. induction l1 as [|a l IH]; simpl; [reflexivity | rewrite IH; lia]. Qed.
+Lemma sumZ_nonneg l : Forall (fun u => (0 <= u)%Z) l -> (0 <= sumZ l)%Z.
+Proof. induction 1; simpl; lia. Qed.
+
+(* the duration of u units, in beats *)
+Definition Dof (U u : Z) : R := IZR u / IZR U.
+
+(* The setting.  tpb ticks per beat; tau units per tick, U = tau * tpb units per beat (the grid of Sched/Model.v);
+   the track starts at tick s; Us = the durations of the events in units (D_j = u_j / U beats, 0 allowed);
+   T = a bound in beats on the exact time of the last event.
+   Hypotheses: U <= 10^8 / 2;  512 does not divide tpb (no decimal ties on the tick grid);
+   q with tpb | 2 * 10^8 * q (q = tpb / gcd(tpb, 2 * 10^8); tpb = 480: q = 3);
+   the error budget (J + 1) (2^-53 + 2^-73) T of fsum_error_closed stays below 1 / (2 q 10^8). *)
+Definition admissible (tpb tau q s : Z) (Us : list Z) (T : R) : Prop :=
+  (0 < tpb)%Z /\ (tpb mod 512 <> 0)%Z /\ (0 < tau)%Z /\ (2 * (tau * tpb) <= 10 ^ 8)%Z /\
+  (0 < q)%Z /\ (tpb | 2 * 10 ^ 8 * q)%Z /\
+  (0 <= s)%Z /\ Forall (fun u => (0 <= u)%Z) Us /\ (Z.of_nat (length Us) < 2 ^ 32)%Z /\
+  0 < T <= 1048576 /\ IZR (s * tau + sumZ Us) / IZR (tau * tpb) <= T /\
+  2 * 10 ^ 8 * IZR q * (INR (length Us + 1) * cT T) < 1.
+
+Lemma Dof_adm U u : (0 < U)%Z -> (2 * U <= 10 ^ 8)%Z -> (0 <= u)%Z -> adm (Dof U u).
+Proof.
+  intros HU HU2 Hu. unfold Dof, adm. destruct (Z.eq_dec u 0) as [->|H0]. left. unfold Rdiv. ring.
+  right. eapply Rle_trans. apply bpow_m1022_le_m30.
+  apply IZR_lt in HU. apply IZR_le in HU2. rewrite mult_IZR in HU2. change (IZR (10 ^ 8)) with 100000000 in HU2.
+  assert (1 <= IZR u) by (apply IZR_le; lia).
+  assert (/ 100000000 <= / IZR U). { apply Rinv_le_contravar; lra. }
+  assert (0 < / IZR U) by (apply Rinv_0_lt_compat; lra).
+  unfold Rdiv. assert (1 * / IZR U <= IZR u * / IZR U) by (apply Rmult_le_compat_r; lra). lra.
+Qed.
+
+Lemma esum_grid U l : (0 < U)%Z -> forall a, esum (IZR a / IZR U) (map (Dof U) l) = IZR (a + sumZ l) / IZR U.
+Proof.
+  intros HU. induction l as [|u r IH]; intros a; simpl.
+  - rewrite Z.add_0_r. reflexivity.
+  - unfold Dof at 1. replace (IZR a / IZR U + IZR u / IZR U) with (IZR (a + u) / IZR U).
+    rewrite IH. f_equal. f_equal. lia.
+    rewrite plus_IZR. field. apply not_0_IZR. lia.
+Qed.
+
+Section Track.
+  Variables (tpb tau q s : Z) (Us : list Z) (T : R).
+  Hypothesis ADM : admissible tpb tau q s Us T.
+
+  Let U : Z := (tau * tpb)%Z.
+  Let S0 : R := IZR s / IZR tpb.                      (* exact start time *)
+  (* float and exact next_event_time after the events [pre] *)
+  Definition Xf (pre : list Z) : R := fsum (RN (IZR s / IZR tpb)) (map (Dof (tau * tpb)) pre).
+  Definition Ax (pre : list Z) : Z := (s * tau + sumZ pre)%Z.
+  Let E : R := INR (length Us + 1) * cT T.
+
+  Lemma S0_units : S0 = IZR (s * tau) / IZR U.
+  Proof.
+    destruct ADM as (H1 & _ & H3 & _). unfold S0, U. rewrite !mult_IZR. field. split; apply not_0_IZR; lia.
+  Qed.
+
+  Lemma U_pos : (0 < U)%Z.
+  Proof. destruct ADM as (H1 & _ & H3 & _). unfold U. nia. Qed.
+
+  Lemma Ds_adm : Forall adm (map (Dof U) Us).
+  Proof.
+    destruct ADM as (H1 & _ & H3 & H4 & _ & _ & _ & H8 & _).
+    apply Forall_map. eapply Forall_impl; [|exact H8]. intros u Hu. apply Dof_adm; [apply U_pos | exact H4 | exact Hu].
+  Qed.
+
+  Lemma S0_adm : adm S0.
+  Proof.
+    destruct ADM as (H1 & _ & H3 & H4 & _ & _ & H7 & _). rewrite S0_units. apply Dof_adm; [apply U_pos | exact H4 | nia].
+  Qed.
+
+  (* the float next_event_time after any prefix of the events is within E of the exact one *)
+  Lemma Xf_error pre post : Us = pre ++ post ->
+    Rabs (Xf pre - IZR (Ax pre) / IZR U) <= E /\ (0 <= Ax pre <= 2 ^ 20 * U)%Z.
+  Proof.
+    intros HUs. pose proof U_pos as U0.
+    destruct ADM as (H1 & _ & H3 & H4 & _ & _ & H7 & H8 & H9 & H10 & H11 & _).
+    assert (PRE : pre = firstn (length pre) Us).
+    { rewrite HUs. rewrite firstn_app, Nat.sub_diag, firstn_all. simpl. rewrite app_nil_r. reflexivity. }
+    assert (TOT : esum S0 (map (Dof U) Us) = IZR (s * tau + sumZ Us) / IZR U).
+    { rewrite S0_units. apply esum_grid. exact U0. }
+    assert (EX : esum S0 (map (Dof U) pre) = IZR (Ax pre) / IZR U).
+    { rewrite S0_units. unfold Ax. apply esum_grid. exact U0. }
+    split.
+    - unfold Xf. fold U. fold S0. rewrite <- EX. rewrite PRE at 1 2. rewrite <- !firstn_map.
+      unfold E. replace (length Us) with (length (map (Dof U) Us)) by apply map_length.
+      apply fsum_error_prefix.
+      + lra.
+      + apply Ds_adm.
+      + apply S0_adm.
+      + rewrite TOT. exact H11.
+      + rewrite map_length. exact H9.
+    - assert (F1 : Forall (fun u => (0 <= u)%Z) pre /\ Forall (fun u => (0 <= u)%Z) post).
+      { rewrite HUs in H8. apply Forall_app in H8. exact H8. }
+      destruct F1 as [F1 F2]. apply sumZ_nonneg in F1. apply sumZ_nonneg in F2.
+      unfold Ax. split. nia.
+      assert (LE : (s * tau + sumZ pre <= s * tau + sumZ Us)%Z). { rewrite HUs, sumZ_app. lia. }
+      assert (B : IZR (s * tau + sumZ Us) <= 1048576 * IZR U).
+      { fold U in H11. assert (0 < IZR U) by (apply IZR_lt; exact U0).
+        apply Rmult_le_reg_r with (r := / IZR U). apply Rinv_0_lt_compat; lra.
+        rewrite Rmult_assoc, Rinv_r by lra. unfold Rdiv in H11. lra. }
+      change 1048576 with (IZR (2 ^ 20)) in B. rewrite <- mult_IZR in B. apply le_IZR in B. lia.
+  Qed.
+
+  (* the float current_time at tick k is within E of k / tpb, for ticks up to T beats *)
+  Lemma time_error (k : Z) : (0 <= k)%Z -> IZR k <= T * IZR tpb ->
+    Rabs (RN (IZR k / IZR tpb) - IZR k / IZR tpb) <= E /\ (0 <= k <= 2 ^ 20 * tpb)%Z.
+  Proof.
+    intros Hk HkT. destruct ADM as (H1 & _ & H3 & H4 & _ & _ & H7 & H8 & H9 & H10 & H11 & _).
+    assert (T0 : 0 < IZR tpb) by (apply IZR_lt; lia).
+    assert (K0 : 0 <= IZR k) by (apply IZR_le; lia).
+    assert (KT : 0 <= IZR k / IZR tpb <= T).
+    { split. apply Rmult_le_pos. lra. left. apply Rinv_0_lt_compat. lra.
+      apply Rmult_le_reg_r with (r := IZR tpb). lra. unfold Rdiv. rewrite Rmult_assoc, Rinv_l by lra. lra. }
+    split.
+    - assert (A : adm (IZR k / IZR tpb)).
+      { replace (IZR k / IZR tpb) with (Dof U (k * tau)). apply Dof_adm; [apply U_pos | exact H4 | nia].
+        unfold Dof, U. rewrite !mult_IZR. field. split; apply not_0_IZR; lia. }
+      eapply Rle_trans. apply RN_err. exact A.
+      unfold E. rewrite plus_INR. simpl INR. pose proof (pos_INR (length Us)) as L.
+      assert (C : u53 * (IZR k / IZR tpb) <= cT T).
+      { unfold cT, eta20. rewrite u53_val. nra. }
+      pose proof (cT_nonneg T ltac:(lra)). nra.
+    - split. lia. apply le_IZR. rewrite mult_IZR. change (IZR (2 ^ 20)) with 1048576. nra.
+  Qed.
+
+  (* Deliverable 4a: for ALL ticks k and ALL event indices (prefixes), the float test decides like the exact one *)
+  Theorem float_due_is_exact_due (k : Z) pre post :
+    (0 <= k)%Z -> IZR k <= T * IZR tpb -> Us = pre ++ post ->
+    float_due (RN (IZR k / IZR tpb)) (Xf pre) = exact_due (k * tau) (Ax pre).
+  Proof.
+    intros Hk HkT HUs.
+    destruct (time_error k Hk HkT) as [Et Rk]. destruct (Xf_error pre post HUs) as [Ex Ra].
+    destruct ADM as (H1 & H2 & H3 & H4 & H5 & H6 & H7 & H8 & H9 & H10 & H11 & H12).
+    pose proof (due_float_exact U tpb tau q k (Ax pre) (RN (IZR k / IZR tpb)) (Xf pre) E
+                  H1 H3 eq_refl H4 H5 H6 H12 (no_tie_of_not_512 tpb H2 k) Rk Ra Et Ex) as D.
+    unfold float_due, exact_due.
+    destruct (Z.leb_spec (Ax pre) (k * tau)) as [L|L].
+    - apply Rle_bool_true. apply D. exact L.
+    - apply Rle_bool_false. apply Rnot_le_lt. intros C. apply D in C. lia.
+  Qed.
+
+  (* the same, by event index j *)
+  Corollary float_due_is_exact_due_index (k : Z) (j : nat) :
+    (0 <= k)%Z -> IZR k <= T * IZR tpb ->
+    float_due (RN (IZR k / IZR tpb)) (fsum (RN (IZR s / IZR tpb)) (firstn j (map (Dof (tau * tpb)) Us)))
+    = exact_due (k * tau) (s * tau + sumZ (firstn j Us)).
+  Proof.
+    intros Hk HkT. rewrite firstn_map.
+    apply (float_due_is_exact_due k (firstn j Us) (skipn j Us) Hk HkT). symmetry. apply firstn_skipn.
+  Qed.
+
+  (** the while loop of Track.tick: state = (next_event_time, remaining durations) *)
+  Fixpoint fl_while (t x : R) (ds : list R) : R * list R :=
+    match ds with
+    | [] => (x, [])
+    | d :: r => if float_due t x then fl_while t (fadd x d) r else (x, ds)
+    end.
+  Fixpoint ex_while (cur a : Z) (us : list Z) : Z * list Z :=
+    match us with
+    | [] => (a, [])
+    | u :: r => if exact_due cur a then ex_while cur (a + u)%Z r else (a, us)
+    end.
+
+  (* Deliverable 4b: on every tick, from corresponding states, both loops consume the same events *)
+  Theorem while_agree (k : Z) : (0 <= k)%Z -> IZR k <= T * IZR tpb ->
+    forall post pre, Us = pre ++ post ->
+    exists pre' post', Us = pre' ++ post' /\
+      fl_while (RN (IZR k / IZR tpb)) (Xf pre) (map (Dof (tau * tpb)) post) = (Xf pre', map (Dof (tau * tpb)) post') /\
+      ex_while (k * tau) (Ax pre) post = (Ax pre', post').
+  Proof.
+    intros Hk HkT. induction post as [|u r IH]; intros pre HUs.
+    - exists pre, []. repeat split; assumption.
+    - simpl. rewrite (float_due_is_exact_due k pre (u :: r) Hk HkT HUs).
+      destruct (exact_due (k * tau) (Ax pre)).
+      + assert (HUs' : Us = (pre ++ [u]) ++ r) by (rewrite <- app_assoc; exact HUs).
+        destruct (IH (pre ++ [u]) HUs') as (pre' & post' & A & B & C).
+        exists pre', post'. split. exact A. split.
+        * rewrite <- B. f_equal. unfold Xf. rewrite map_app, fsum_app. reflexivity.
+        * rewrite <- C. f_equal. unfold Ax. rewrite sumZ_app. simpl. lia.
+      + exists pre, (u :: r). repeat split. exact HUs.
+  Qed.
+
+  (** the run: tick m = 0, 1, ..., n-1, the track's clock at tick m given by [time m] *)
+  Fixpoint fl_run (time : nat -> R) (n : nat) (st : R * list R) : R * list R :=
+    match n with
+    | O => st
+    | S m => let st' := fl_run time m st in fl_while (time m) (fst st') (snd st')
+    end.
+  Fixpoint ex_run (n : nat) (st : Z * list Z) : Z * list Z :=
+    match n with
+    | O => st
+    | S m => let st' := ex_run m st in ex_while (Z.of_nat m * tau) (fst st') (snd st')
+    end.
+
+  Lemma fl_run_ext time1 time2 n st : (forall m, (m < n)%nat -> time1 m = time2 m) ->
+    fl_run time1 n st = fl_run time2 n st.
+  Proof.
+    induction n as [|n IH]; intros H. reflexivity.
+    simpl. rewrite IH by (intros; apply H; lia). rewrite H by lia. reflexivity.
+  Qed.
+
+  (* Deliverable 4c: after every number n of ticks (up to T beats) the float run and the exact run have consumed the
+     same events: every event has the same onset tick in the float computation as in exact arithmetic *)
+  Theorem run_agree (n : nat) : IZR (Z.of_nat n) <= T * IZR tpb ->
+    exists pre post, Us = pre ++ post /\
+      fl_run (fun m => RN (IZR (Z.of_nat m) / IZR tpb)) n (RN (IZR s / IZR tpb), map (Dof (tau * tpb)) Us)
+        = (Xf pre, map (Dof (tau * tpb)) post) /\
+      ex_run n ((s * tau)%Z, Us) = (Ax pre, post).
+  Proof.
+    induction n as [|n IH]; intros Hn.
+    - exists [], Us. repeat split. unfold Ax. simpl. f_equal. lia.
+    - assert (Hn' : IZR (Z.of_nat n) <= T * IZR tpb).
+      { eapply Rle_trans; [|exact Hn]. apply IZR_le. lia. }
+      destruct (IH Hn') as (pre & post & A & B & C).
+      simpl. rewrite B, C. simpl fst. simpl snd.
+      apply (while_agree (Z.of_nat n) ltac:(lia) Hn' post pre A).
+  Qed.
+
+  (* ... with the clock the SOURCE computes (Base/FloatGrid.v: grid_step iterated from 0.0) *)
+  Corollary run_agree_src (n : nat) : (tpb <= 2 ^ 20)%Z -> IZR (Z.of_nat n) <= T * IZR tpb ->
+    exists pre post, Us = pre ++ post /\
+      fl_run (fun m => Nat.iter m (grid_step tpb) 0) n (RN (IZR s / IZR tpb), map (Dof (tau * tpb)) Us)
+        = (Xf pre, map (Dof (tau * tpb)) post) /\
+      ex_run n ((s * tau)%Z, Us) = (Ax pre, post).
+  Proof.
+    intros Htpb Hn.
+    rewrite (fl_run_ext _ (fun m => RN (IZR (Z.of_nat m) / IZR tpb))).
+    - apply run_agree. exact Hn.
+    - intros m Hm. destruct ADM as (H1 & _ & _ & _ & _ & _ & _ & _ & _ & H10 & _).
+      apply grid_run_exact. lia.
+      assert (IZR (Z.of_nat m) <= 1048576 * 1048576).
+      { assert (IZR (Z.of_nat m) <= IZR (Z.of_nat n)) by (apply IZR_le; lia).
+        assert (IZR tpb <= 1048576) by (apply IZR_le; lia).
+        assert (0 < IZR tpb) by (apply IZR_lt; lia). nra. }
+      apply le_IZR. change (IZR (2 ^ 40)) with 1099511627776. lra.
+  Qed.
+
+  (* the number of events consumed after n ticks is the same *)
+  Corollary consumed_agree (n : nat) : IZR (Z.of_nat n) <= T * IZR tpb ->
+    length (snd (fl_run (fun m => RN (IZR (Z.of_nat m) / IZR tpb)) n (RN (IZR s / IZR tpb), map (Dof (tau * tpb)) Us)))
+    = length (snd (ex_run n ((s * tau)%Z, Us))).
+  Proof.
+    intros Hn. destruct (run_agree n Hn) as (pre & post & _ & B & C). rewrite B, C. simpl. apply map_length.
+  Qed.
+End Track.
+
+(** * 5. The hypotheses are satisfiable; a simple sufficient form of the error budget *)
+
+(* q * (J + 1) * T <= 45 * 10^6  (J events, T beats) is enough for the last clause of [admissible] *)
+Lemma budget_ok (q : Z) (J : nat) (T : R) :
+  (0 < q)%Z -> 0 < T -> IZR q * INR (J + 1) * T <= 45000000 ->
+  2 * 10 ^ 8 * IZR q * (INR (J + 1) * cT T) < 1.
+Proof.
+  intros Hq HT H. rewrite e8_val. unfold cT, eta20. rewrite u53_val.
+  replace (2 * 100000000 * IZR q * (INR (J + 1) * (/ 9007199254740992 * (1 + / 1048576) * T)))
+    with (IZR q * INR (J + 1) * T * (200000000 * / 9007199254740992 * (1 + / 1048576))) by ring.
+  assert (0 <= IZR q * INR (J + 1) * T).
+  { apply Rmult_le_pos. apply Rmult_le_pos. apply IZR_le. lia. apply pos_INR. lra. }
+  nra.
+Qed.
+
+(* isobar's default resolution, 480 ticks per beat, durations in whole ticks' fractions of 1/480 beat
+   (1/3 beat = 160 units, 0.1 beat = 48 units, one tick = 1 unit): q = 3; up to 14999 events within 1000 beats *)
+Lemma admissible_480 (Us : list Z) :
+  Forall (fun u => (0 <= u)%Z) Us -> (Z.of_nat (length Us) < 15000)%Z -> (sumZ Us <= 480000)%Z ->
+  admissible 480 1 3 0 Us 1000.
+Proof.
+  intros HF HL HS. unfold admissible. repeat split; try lia; try lra; try exact HF.
+  - intros H. discriminate H.
+  - exists 1250000%Z. reflexivity.
+  - pose proof (sumZ_nonneg Us HF) as P. apply IZR_le in HS.
+    replace (0 * 1 + sumZ Us)%Z with (sumZ Us) by lia. change (IZR (1 * 480)) with 480. lra.
+  - apply budget_ok. lia. lra.
+    assert (INR (length Us + 1) <= 15000).
+    { rewrite INR_IZR_INZ. apply IZR_le. lia. }
+    pose proof (pos_INR (length Us + 1)). lra.
+Qed.
+
+Example admissible_nonvacuous : admissible 480 1 3 0 [160; 48; 160; 48; 1; 480]%Z 1000.
+Proof. apply admissible_480. repeat constructor; lia. simpl; lia. simpl; lia. Qed.
+
+(* the instance: at 480 ticks per beat, durations 1/3, 0.1, 1/3, 0.1, 1/480, 1: every float decision, on every tick
+   up to beat 1000, for every event, is the exact decision *)
+Example due_480 (k : Z) (j : nat) : (0 <= k <= 480000)%Z ->
+  float_due (RN (IZR k / 480)) (fsum (RN (0 / 480)) (firstn j (map (Dof (1 * 480)) [160; 48; 160; 48; 1; 480]%Z)))
+  = exact_due (k * 1) (0 * 1 + sumZ (firstn j [160; 48; 160; 48; 1; 480]%Z)).
+Proof.
+  intros Hk. apply (float_due_is_exact_due_index 480 1 3 0 _ 1000 admissible_nonvacuous). lia.
+  replace (1000 * 480) with (IZR 480000) by (simpl; lra). apply IZR_le. lia.
+Qed.
+
+Print Assumptions units8_compare.
+Print Assumptions fsum_error_closed.
+Print Assumptions due_float_exact.
+Print Assumptions tie_needs_512.
+Print Assumptions tie_sharp_512.
+Print Assumptions float_due_is_exact_due.
+Print Assumptions run_agree_src.
+Print Assumptions due_480.
+(* Output of the eight Print Assumptions above (Coq 8.16.1, Flocq 4.1.0):
+     tie_needs_512:  Closed under the global context
+     all the others: exactly the four axioms of the standard library's classical real numbers -
+       ClassicalDedekindReals.sig_not_dec : forall P : Prop, {~ ~ P} + {~ P}
+       ClassicalDedekindReals.sig_forall_dec
+         : forall P : nat -> Prop, (forall n : nat, {P n} + {~ P n}) -> {n : nat | ~ P n} + {forall n : nat, P n}
+       FunctionalExtensionality.functional_extensionality_dep
+         : forall (A : Type) (B : A -> Type) (f g : forall x : A, B x), (forall x : A, f x = g x) -> f = g
+       Classical_Prop.classic : forall P : Prop, P \/ ~ P
+   No axiom of this project, nothing admitted. *)
